@@ -261,7 +261,7 @@ pub struct Liar {
     pub lies: u64,
 }
 
-pub const LIAR_MODES: u8 = 8;
+pub const LIAR_MODES: u8 = 9;
 
 pub fn liar_set(mode: u8, period: u8, bits: Vec<u8>) {
     LIAR.with(|l| {
@@ -312,6 +312,10 @@ fn liar_eq(a: u8, b: u8) -> bool {
                     (byte >> (i % 8)) & 1 == 1
                 }
             }
+            // 7: honest ==, but Borrow hands out another field (see liar_alt_borrow)
+            // 8: key 0 is a wildcard equal to everything: reflexive and symmetric but NOT
+            //    transitive (1 == 0 and 0 == 2 although 1 != 2)
+            8 => truth || a == 0 || b == 0,
             _ => truth,
         };
         if ans != truth {
